@@ -26,6 +26,7 @@ type c12Result struct {
 	MaxRatio            map[string]int   `json:"max_ratio_decoded_by_format"`
 	Variants            map[string]int64 `json:"stream_variants"`
 	ValidAfterMalformed int64            `json:"valid_streams_decoded_right_after_malformed_ones"`
+	DenseSweep          int64            `json:"block_streams_of_every_length_decoded"`
 	Malformed           map[string]int64 `json:"malformed_by_format"`
 	MalRejected         int64            `json:"malformed_rejected"`
 	MalAccepted         int64            `json:"malformed_accepted_with_output"`
@@ -247,6 +248,27 @@ func c12Child(args []string) {
 			}
 		}
 	}
+	// ---- (2b) every length 0..4200 of very repetitive input for the block formats (decoded-length
+	// prefixes take every value, including those that look like the magic bytes of other containers)
+	for n := 0; n <= 4200; n++ {
+		for _, kind := range []string{"zero", "runs"} {
+			x := hx.PRNGBytes(int64(n)*31+7, n, kind)
+			for _, f := range []string{"snz", "lz4"} {
+				enc, err := hx.Encode(f, x, 1)
+				if err != nil {
+					continue
+				}
+				mark()
+				var dec []byte
+				var derr error
+				if p, hung := withWatchdog(30*time.Second, func() { dec, derr = srv.Decompress(f, enc) }); p != nil || hung || derr != nil || !bytes.Equal(dec, x) {
+					res.add(c09Viol{Kind: "valid_stream_not_restored", Params: map[string]string{"format": f, "sweep": "every_length"}, Text: fmt.Sprintf("valid %s block of %d %s bytes not restored: err=%v panic=%v hung=%v", f, n, kind, derr, p, hung), Case: map[string]interface{}{"format": f, "len": n, "kind": kind}})
+				}
+				res.Decoded[f]++
+				res.DenseSweep++
+			}
+		}
+	}
 	// ---- (3) malformed streams
 	var pool [][2]interface{}
 	for _, f := range formats {
@@ -287,9 +309,28 @@ func c12Child(args []string) {
 				v[rnd.Intn(len(v))] ^= 1 << uint(rnd.Intn(8))
 			}
 		case "header":
-			for k := 0; k < 4 && k < len(v); k++ {
-				if rnd.Intn(2) == 0 {
+			// the first bytes carry magic numbers, flags and declared sizes: random values and extremes
+			hl := 4
+			if rnd.Intn(2) == 0 {
+				hl = 14
+			}
+			for k := 0; k < hl && k < len(v); k++ {
+				switch rnd.Intn(4) {
+				case 0:
 					v[k] = byte(rnd.Intn(256))
+				case 1:
+					v[k] = 0xff
+				}
+			}
+			if f == "zst" && len(v) > 13 && rnd.Intn(2) == 0 {
+				// frame header descriptor: keep the magic, claim an 8-byte content size and make it huge
+				copy(v, []byte{0x28, 0xb5, 0x2f, 0xfd})
+				v[4] = 0xc0 | v[4]&0x3f
+				for k := 5; k < 13; k++ {
+					v[k] = 0xff
+				}
+				if rnd.Intn(2) == 0 {
+					v[12] = byte(rnd.Intn(4)) // 2^56..2^58: too large to allocate, small enough to be tried
 				}
 			}
 		case "random":
@@ -352,7 +393,7 @@ func c12Child(args []string) {
 }
 
 func c12(r *hx.Run) {
-	r.Rule = "child process per batch. (1) pike's Gzip/Brotli at levels -1..12, 99 and -7 on lengths {0..64, 2^7..2^20 +-1, random} x {random, text, runs, zeros}: decoded by pike's own and by the standard decoders (plus gzip -dc and python zlib on a sample); (2) valid streams of gzip (incl. multi-member), br, lz4 block, zst (incl. zstd CLI output), snz from self-checked reference encoders, one in four gzip/br/zst streams in a container written with other encoder settings (gzip FNAME/FCOMMENT/FEXTRA/MTIME, brotli windows 2^10..2^24 with flushes, zstd streaming encoder with declared windows 2^10..2^25 and chunked writes) at random levels, up to 1 MiB and ratios > 200: pike's decoder must restore them exactly; (3) malformed streams (truncation incl. every offset of small streams, bit flips, header edits, random bytes, doubled streams) per decoder under a per-case watchdog: no panic, no hang, and a known-good stream of the format is restored right after every second malformed one. Non-trivial/distinct = (level,length,kind) / (format,kind,ratio class) / mutation class."
+	r.Rule = "child process per batch. (1) pike's Gzip/Brotli at levels -1..12, 99 and -7 on lengths {0..64, 2^7..2^20 +-1, random} x {random, text, runs, zeros}: decoded by pike's own and by the standard decoders (plus gzip -dc and python zlib on a sample); (2) valid streams of gzip (incl. multi-member), br, lz4 block, zst (incl. zstd CLI output), snz from self-checked reference encoders, one in four gzip/br/zst streams in a container written with other encoder settings (gzip FNAME/FCOMMENT/FEXTRA/MTIME, brotli windows 2^10..2^24 with flushes, zstd streaming encoder with declared windows 2^10..2^25 and chunked writes) at random levels, up to 1 MiB and ratios > 200: pike's decoder must restore them exactly; (2b) snz and lz4 blocks of every length 0..4200 of zero / run bytes; (3) malformed streams (header edits over the first 14 bytes incl. zstd frames claiming a content size near 2^64, truncation incl. every offset of small streams, bit flips, header edits, random bytes, doubled streams) per decoder under a per-case watchdog: no panic, no hang, and a known-good stream of the format is restored right after every second malformed one. Non-trivial/distinct = (level,length,kind) / (format,kind,ratio class) / mutation class."
 	r.Assume = []string{"a malformed stream that decodes to some bytes without error is accepted (the formats carry no mandatory checksum)", "br/lz4/zst/snz reference encoders are the libraries pike links; gzip and zstd additionally use independent tools", "zst cases are capped per child because every ZSTDDecode leaves 16 goroutines behind (information, outside the given properties)"}
 	exe, _ := os.Executable()
 	batches := r.Pick(1, 12)
@@ -402,6 +443,7 @@ func c12(r *hx.Run) {
 			tot.Variants[k] += v
 		}
 		tot.ValidAfterMalformed += res.ValidAfterMalformed
+		tot.DenseSweep += res.DenseSweep
 		for k, v := range res.MaxRatio {
 			if v > tot.MaxRatio[k] {
 				tot.MaxRatio[k] = v
@@ -437,6 +479,7 @@ func c12(r *hx.Run) {
 	r.Set("max_ratio_decoded_by_format", tot.MaxRatio)
 	r.Set("valid_stream_container_variants_decoded", tot.Variants)
 	r.Add("valid_streams_decoded_right_after_malformed_ones", tot.ValidAfterMalformed)
+	r.Add("block_streams_of_every_length_0_to_4200_decoded", tot.DenseSweep)
 	r.Set("malformed_by_format", tot.Malformed)
 	r.Add("malformed_rejected", tot.MalRejected)
 	r.Add("malformed_accepted_with_output", tot.MalAccepted)
